@@ -1118,11 +1118,12 @@ class SortValues(BaseSetIndexSortValues):
         # NFirst/NLast have unknown divisions while the head/tail of a presorted
         # sort_values keeps the frame's; only rewrite when nothing that was built
         # on top of the Head/Tail (loc, repartition, ...) consumes the result
-        # NFirst/NLast keep the index of the frame
+        # NFirst/NLast keep the index of the frame and put missing keys last
         if (
             isinstance(parent, Head)
             and not dependents[parent._name]
             and not self.ignore_index
+            and self.na_position == "last"
         ):
             return NFirst(
                 self.frame, n=parent.n, _columns=self.by, ascending=self.ascending
@@ -1132,6 +1133,7 @@ class SortValues(BaseSetIndexSortValues):
             isinstance(parent, Tail)
             and not dependents[parent._name]
             and not self.ignore_index
+            and self.na_position == "last"
         ):
             return NLast(
                 self.frame, n=parent.n, _columns=self.by, ascending=self.ascending
